@@ -93,7 +93,7 @@ Bump == /\ Running /\ BumpOn /\ ncommit > 0
         /\ lastAct' = <<"bump", BumpArgs>> /\ n' = n + 1 /\ UNCHANGED <<phase, wopts, coins, ncommit, lastRes>>
 \* the recipient (the others' key) spends what transaction k paid him, unconfirmed: a descendant that is not the wallet's
 SpendRecipient == /\ Running /\ BumpOn /\ ncommit > 0
-                  /\ lastAct' = <<"respend", RandomElement(1..ncommit)>> /\ n' = n + 1 /\ UNCHANGED <<phase, wopts, coins, ncommit, lastRes>>
+                  /\ lastAct' = <<"respend", Pick(<<ncommit, ncommit, RandomElement(1..ncommit)>>)>> /\ n' = n + 1 /\ UNCHANGED <<phase, wopts, coins, ncommit, lastRes>>
 \* the wallet itself spends the change of transaction k: a descendant in the wallet
 SpendChange == /\ Running /\ BumpOn /\ ncommit > 0
                /\ lastAct' = <<"childof", Pick(<<ncommit, RandomElement(1..ncommit)>>), Pick(<<TRUE, FALSE>>)>> /\ n' = n + 1 /\ UNCHANGED <<phase, wopts, coins, ncommit, lastRes>>
